@@ -9,62 +9,110 @@ import os
 
 PROP = 'C04'
 LEAN_MODULES = ['Glom.Props.C04']
-FACT_FILES = ['ExcFacts', 'C04Facts', 'c04']
+FACT_FILES = ['ExcFacts', 'C04Facts', 'TFacts', 'c04']
 READY = True
-THEOREMS_PER_MODULE = {'Glom.Props.C04': 19}
+THEOREMS_PER_MODULE = {'Glom.Props.C04': 44}
+
+# ---------------------------------------------------------------------------------------------------
+# SWITCH — classes on which the UNCHANGED glom breaks the property (reported to the lead, see the
+# c04_*_counterexample theorems on `genFacts` in Props/C04.lean):
+#   sealed   a class that refuses to be subclassed (`__init_subclass__` / metaclass raises): the
+#            `type(...)` call of GlomError.wrap stands outside its `try`, the TypeError leaves glom()
+#   frozen   a class whose `__setattr__` raises (frozen dataclass): `err._set_wrapped(e)` / `err._finalize()`
+#            in glom()'s handler are unguarded, the AttributeError leaves glom() (GlomError subclasses)
+#   foreign  a user `__copy__` returning an object of another class with the same args: glom() raises the copy
+# Set to True once the fix is committed; the generator then draws these classes like every other one.
+HOSTILE_CLASSES = os.environ.get('C04_HOSTILE', '') == '1'
+# ---------------------------------------------------------------------------------------------------
+
 MANIFEST = dict(
     text="Lean 4 theorems over a code-shaped model of glom()'s keyword defaulting, its two nested try blocks, "
-         "copy.copy of GlomErrors and GlomError.wrap: for EVERY exception class (any MRO, any constructor "
+         "copy.copy of GlomErrors (incl. user __reduce__/__copy__), GlomError.wrap with the C3 linearisation of "
+         "the class it creates, _set_wrapped/_finalize: for EVERY exception class (any MRO, any constructor "
          "Args -> Option Args, truthy or falsy), every .args and every (default, skip_exc, glom_debug): what leaves "
-         "glom() is an instance of the original class with the same args (c04_class, c04_args), is also a GlomError "
-         "when the class is an Exception subclass rebuildable from its args (c04_glomerror), the default object "
-         "itself is returned exactly for errors matching skip_exc at their origin (c04_selective), glom_debug "
-         "propagates the original object (c04_debug_identity), BaseException-only classes pass untouched; a fault "
-         "at any depth under any nesting of tuple/dict/list/Spec frames reaches the handler unchanged and passes a "
-         "Coalesce exactly when it does not match its skip_exc (c04_plain_frames, c04_coalesce_selective). Per-run "
-         "facts obligations by `decide` on tables regenerated from /repo: the shape of glom()/wrap/_glom/Coalesce "
-         "handlers (c04_facts_wf) and every `raise` in glom's modules names a GlomError subclass or a store-all "
-         "builtin, with the documented multiple bases (c04_internal_subtypes). Model tied to the code by "
-         "differential execution on generated classes x fault positions x the keyword matrix.",
+         "glom() is an instance of the original class — and of every class the original was an instance of, so "
+         "every except clause keeps working (c04_class, c04_except_clauses) — with the same args (c04_args), is "
+         "also a GlomError when the class is an Exception subclass rebuildable from its args (c04_glomerror), the "
+         "default object itself is returned exactly for errors matching skip_exc at their origin (c04_selective), "
+         "glom_debug propagates the original object with its __cause__/__context__ (c04_debug_identity), otherwise "
+         "the original stays reachable (c04_chain), BaseException-only classes pass untouched; the C3 merge is "
+         "modelled for arbitrary hierarchies and proved to keep every base catchable (c04_c3_sound) and to succeed "
+         "with GlomError directly before Exception for every consistent exception MRO (c04_wrapper_mro), a wrapped "
+         "error wrapped again keeps its class (c04_wrap_of_wrapped, c04_rewrap_stable); a fault at any depth under "
+         "any nesting of tuple/dict/list/Spec/Call/Invoke/Iter frames reaches the handler unchanged "
+         "(c04_plain_frames), passes a Coalesce exactly when it does not match its skip_exc "
+         "(c04_coalesce_selective), is converted by glom's own try blocks exactly for the classes they name "
+         "(c04_conv_selective), and for EVERY nesting of plain / Coalesce / nested glom(default=, skip_exc=) "
+         "levels the level that replaces it is the first whose skip_exc matches what reaches it, what gets "
+         "through keeps every class of the original (c04_levels, c04_levels_faithful: induction over the "
+         "nesting). Per-run facts obligations by `decide` on tables regenerated from /repo (c04_facts_wf, "
+         "c04_internal_subtypes). Model tied to the code by differential execution on generated classes x fault "
+         "sources x fault positions x the keyword matrix x entry points.",
     note="trusted: Lean kernel + {propext, Classical.choice, Quot.sound}; extractor (AST patterns of glom(), "
-         "GlomError.wrap, _glom, Coalesce.glomit, __copy__ overrides, raise statements); harness/driver; CPython's "
-         "exception construction, BaseException.__reduce_ex__/copy.copy, C3 MRO of the wrapper class and the C "
-         "constructors of OSError/UnicodeDecodeError as modelled in Glom/Model/C04*.lean and validated by the "
-         "correspondence only. Args are None/int/str/bytes/opaque objects (no bool/float, so == is structural); "
-         "constructors that raise raise Exception subclasses; user classes do not override __copy__/__reduce__/"
-         "__new__; the type(...) call creating the wrapper class is assumed to succeed.",
-    technique='Lean 4 proof over exception classes as data (case analysis of the handler, induction over frame '
-              'contexts / mutual induction over specs) + facts obligations by decide + differential correspondence',
+         "GlomError.wrap, _glom, Coalesce.glomit, _handle_list, Spec.glom/Glommer.glom, _t_eval branches, __copy__ "
+         "overrides, raise statements); harness/driver; CPython's exception construction, "
+         "BaseException.__reduce_ex__/copy.copy, raise/except (context chaining), the C constructors of "
+         "OSError/UnicodeDecodeError/ExceptionGroup as modelled in Glom/Model/C04*.lean and validated by the "
+         "correspondence only (the C3 merge is modelled and validated against type.__mro__ on generated "
+         "multiple-inheritance hierarchies). Args are None/int/str/bytes/opaque objects (no bool/float, so == is "
+         "structural); constructors that raise raise Exception subclasses. GENUINE DEFECT (gated by "
+         "HOSTILE_CLASSES, counter-example theorems on the current facts): type() in GlomError.wrap and "
+         "_set_wrapped/_finalize in glom() are unguarded.",
+    technique='Lean 4 proof over exception classes as data (case analysis of the handler, C3 merge by induction, '
+              'induction over frame contexts / nesting levels / mutual induction over specs) + facts obligations '
+              'by decide + differential correspondence',
     ref='DESIGN.md §3 C04, §6 reading 3')
 RULE = ('type-directed: an exception class is drawn from a catalogue generated from constructor-shape data '
-        '(builtins incl. OSError/UnicodeDecodeError whose C constructors rewrite args, glom\'s own classes, user '
-        'classes over Exception/builtin/GlomError/TypeMatchError/KeyboardInterrupt bases with store-all, no-super, '
-        'prefix, len (arity-changing), const, reversing, keyword-only, fixed-arity constructors, falsy instances, '
-        'two-level subclasses), built with arguments that fit its signature (sometimes .args reassigned '
-        'afterwards); a spec tree of tuple/dict/list/Spec/First(key)/Coalesce nodes is generated with the faulting callable '
-        'at a random position and mostly-returning siblings; a one-edit mutation stream moves the fault, plants a '
-        'failing path / Match before it, or wraps it in a Coalesce whose skip_exc does / does not match; keywords '
-        'from default in {absent, sentinel} x skip_exc in {absent, the class, a base, an unrelated class, a tuple, '
-        '(), GlomError} x glom_debug in {absent, False, True}; thorough also enumerates catalogue x keyword '
-        'matrix x 8 contexts. non-trivial = an exception reached glom()\'s handler and (it was raised below the '
-        'top level, or a keyword was given, or its class is not a plain store-all builtin); '
-        'distinct = distinct (classes, exception, spec, settings)')
-TRUSTED = ['generated user classes do not define __copy__/__reduce__/__new__; args are None/int/str/bytes/opaque '
-           'objects; GLOM_DEBUG is not set in the environment of the check']
-ASSUMPTIONS = ['default registry; specs limited to callables, failing paths, Match(str), tuple/dict/list/Spec/Coalesce',
-               'GLOM_DEBUG unset']
+        '(builtins incl. OSError/UnicodeDecodeError/ExceptionGroup whose C constructors rewrite or validate args, '
+        'glom\'s own classes, user classes over one or SEVERAL bases (Exception/builtin/GlomError/TypeMatchError/'
+        'KeyboardInterrupt, GlomError as a mix-in before or after a builtin) with store-all, no-super, prefix, len '
+        '(arity-changing), const, reversing, validating (ValueError), keyword-only, fixed-arity constructors, falsy instances, a user '
+        '__reduce__ / __copy__, two-level subclasses), built with arguments that fit its signature (sometimes '
+        '.args reassigned afterwards, __cause__/__context__ set, or the CLASS raised instead of an instance); the '
+        'fault is raised by a callable spec, the function of Call/Invoke/T(...), a default_factory, a Coalesce '
+        'skip predicate, __next__/__iter__/__getitem__/__getattr__ of the target or a registered iterate/get '
+        'handler; a spec tree of tuple/dict/list/Spec/Auto/Pipe/Ref/Call-arg/Invoke-spec/Fill/Check/S frames, '
+        'First/Iter().first/map/filter steps, Coalesce nodes and nested glom()/Spec.glom()/Glommer.glom() calls '
+        'with their own default/skip_exc/glom_debug is generated with the fault at a random position and '
+        'mostly-returning siblings; a one-edit mutation stream moves the fault, changes its source, plants a '
+        'failing path / Match before it, wraps it in a Coalesce or a nested glom call whose skip_exc does / does '
+        'not match; keywords from default in {absent, sentinel} x skip_exc in {absent, the class, a base, an '
+        'unrelated class, a tuple, (), GlomError} x glom_debug in {absent, False, True} x entry point in '
+        '{glom, Spec.glom, Glommer.glom}; thorough also enumerates catalogue x keyword matrix x contexts. '
+        'non-trivial = an exception reached glom()\'s handler and (it was raised below the top level, or a '
+        'keyword was given, or its class is not a plain store-all builtin); '
+        'every fifth case carries a HISTORY (earlier faults raised through glom() in the same process: the same '
+        'class with other, often non-rebuildable, args, or another class under the same name); '
+        'distinct = distinct (classes, exception, spec, settings, entry, history)')
+TRUSTED = ['generated user classes define __copy__/__reduce__ only as the case says; args are None/int/str/bytes/'
+           'opaque objects / lists of exceptions; GLOM_DEBUG is not set in the environment of the check']
+ASSUMPTIONS = ['default registry (plus the handlers a case registers on its own Glommer); specs limited to the node '
+               'kinds listed in RULE', 'GLOM_DEBUG unset']
 
 PLAIN_BASES = ['Exception', 'KeyError', 'ValueError', 'ZeroDivisionError', 'IndexError', 'AttributeError',
                'TypeError', 'LookupError', 'StopIteration', 'RuntimeError', 'GlomError', 'BadSpec', 'FoldError',
                'KeyboardInterrupt', 'SystemExit', 'BaseException']
 SPECIAL_BASES = ['OSError', 'FileNotFoundError', 'UnicodeDecodeError', 'TypeMatchError', 'MatchError',
                  'PathAccessError', 'CoalesceError', 'GeneratorExit', 'CheckError', 'PathAssignError',
-                 'PathDeleteError', 'UnregisteredTarget']
+                 'PathDeleteError', 'UnregisteredTarget', 'ExceptionGroup', 'BaseExceptionGroup']
 GLOM_NAMES = ['GlomError', 'BadSpec', 'FoldError', 'TypeMatchError', 'MatchError', 'PathAccessError',
               'CoalesceError', 'CheckError', 'PathAssignError', 'PathDeleteError', 'UnregisteredTarget']
 ARITY = {'TypeMatchError': 2, 'PathAccessError': 3, 'CoalesceError': 3, 'CheckError': 3, 'PathAssignError': 3,
          'PathDeleteError': 3, 'UnregisteredTarget': 4}
 UNRELATED = ['ZeroDivisionError', 'FloatingPointError', 'BufferError', 'CheckError', 'EOFError']
+# second / third bases of a multiple-inheritance class: no C-level fields of their own (no lay-out conflict),
+# no __init__ of their own
+MIXINS = ['GlomError', 'KeyError', 'ValueError', 'LookupError', 'IndexError', 'TypeError', 'RuntimeError',
+          'ArithmeticError', 'ZeroDivisionError', 'BadSpec', 'FoldError']
+
+FAULT_DIRECT = ['fn', 'call', 'invoke', 'tcall', 'factory', 'skipfunc']
+FAULT_ITER = ['next']
+FAULT_CONV = {'iter': 'iter', 'reg_iter': 'iter', 'getitem': 'getitem', 'getattr': 'getattr', 'path': 'path',
+              'reg_get': 'path'}
+FAULT_KINDS = FAULT_DIRECT + FAULT_ITER + sorted(FAULT_CONV)
+FRAME_KINDS = ['Spec', 'Auto', 'Pipe', 'Ref', 'CallArg', 'InvokeSpec', 'FillAuto']
+FIRST_KINDS = ['First', 'IterFirst', 'IterMap', 'IterFilter', 'IterMapFirst']
+ENTRIES = ['glom', 'spec', 'glommer']
 
 
 # ------------------------------------------------------------------ classes from shape data
@@ -81,11 +129,28 @@ def real_class(name):
     raise KeyError(name)
 
 
-def make_class(name, base, shape, falsy):
+def make_class(name, bases, shape, falsy, copy_kind='args', sealed=False, frozen=False):
     """Python class from the shape data (the Lean reading of the same data is `Shape.construct`)."""
     ns = {}
     if falsy:
         ns['__bool__'] = lambda self: False
+    if copy_kind == 'self':
+        ns['__copy__'] = lambda self: self
+    elif copy_kind == 'foreign':
+        def foreign_copy(self):
+            import glom
+            return glom.GlomError(*self.args)
+        ns['__copy__'] = foreign_copy
+    elif copy_kind == 'init':
+        ns['__reduce__'] = lambda self: (type(self), self._init)
+    if sealed:
+        def refuse(cls, **kw):
+            raise TypeError('%s is final' % name)
+        ns['__init_subclass__'] = classmethod(refuse)
+    if frozen:
+        def setattr_(self, k, v):
+            raise AttributeError('cannot assign to field %r' % k)
+        ns['__setattr__'] = setattr_
     if shape is not None:
         lo, hi, kwreq, store = shape['sig']
         params = ['a%d' % i for i in range(lo)]
@@ -102,6 +167,9 @@ def make_class(name, base, shape, falsy):
             body.append('super(K, self).__init__(*args)')
         elif store == 'nosuper':
             pass
+        elif store == 'needint':       # a validating constructor: raises something other than TypeError
+            body.append("if not args or type(args[0]) is not int: raise ValueError('need an int')")
+            body.append('super(K, self).__init__(*args)')
         elif store == 'len':
             body.append('super(K, self).__init__(len(args))')
         elif store == 'rev':
@@ -112,25 +180,47 @@ def make_class(name, base, shape, falsy):
             body.append('super(K, self).__init__(%r)' % store['const'])
         else:
             raise ValueError(store)
-        body.append('self.first = args[0] if args else None')
+        body.append("object.__setattr__(self, 'first', args[0] if args else None)")
+        body.append("object.__setattr__(self, '_init', args)")
         if kwreq:
-            body.append('self.code = code')
+            body.append("object.__setattr__(self, 'code', code)")
         src = 'def __init__(%s):\n%s\n' % (', '.join(sig), ''.join('    ' + b + '\n' for b in body))
         cell = {}
         g = {'K': None}
         exec(src, g, cell)
         ns['__init__'] = cell['__init__']
-        K = type(name, (base,), ns)
+        K = type(name, tuple(bases), ns)
         g['K'] = K
         return K
-    return type(name, (base,), ns)
+    return type(name, tuple(bases), ns)
+
+
+def bases_of(c):
+    return c['bases'] if 'bases' in c else [c['base']]
+
+
+_CLASS_MEMO = {}
 
 
 def build_classes(specs):
+    """name -> class.  The same list of class specs yields the SAME class objects for the whole process (so that
+    successive cases, and the `before` history of a case, raise instances of one class through glom() again and
+    again); different specs yield distinct classes, often under the same __name__ / __qualname__."""
+    memo_key = json.dumps(specs, sort_keys=True)
+    if memo_key in _CLASS_MEMO:
+        return _CLASS_MEMO[memo_key]
+    table = _build_classes(specs)
+    if len(_CLASS_MEMO) < 20000:
+        _CLASS_MEMO[memo_key] = table
+    return table
+
+
+def _build_classes(specs):
     table = {}
     for c in specs:
-        base = table.get(c['base']) or real_class(c['base'])
-        table[c['name']] = make_class(c['name'], base, c.get('shape'), c.get('falsy', False))
+        bases = [table.get(b) or real_class(b) for b in bases_of(c)]
+        table[c['name']] = make_class(c['name'], bases, c.get('shape'), c.get('falsy', False),
+                                      c.get('copy', 'args'), c.get('sealed', False), c.get('frozen', False))
     return table
 
 
@@ -161,6 +251,13 @@ class ArgCodec:
             return j['s']
         if 'y' in j:
             return bytes.fromhex(j['y'])
+        if 'x' in j:        # a non-empty list of exception instances
+            n = 1000 + j['x']
+            if n not in self.objs:
+                o = [ValueError(j['x']), KeyError('sub')] + ([KeyboardInterrupt()] if j['x'] >= 10 else [])
+                self.objs[n] = o
+                self.by_id[id(o)] = n
+            return self.objs[n]
         n = j['o']
         if n not in self.objs:
             o = Opaque(n)
@@ -183,6 +280,8 @@ class ArgCodec:
             self.next += 1
             self.by_id[id(v)] = k
             self.objs[k] = v        # keep alive: ids must not be reused
+        if type(v) is list and k >= 1000:
+            return {'x': k - 1000}
         return {'o': k}
 
     def enc_args(self, args):
@@ -200,6 +299,8 @@ class Recorder:
     def __init__(self, inner):
         self.inner = inner
         self.seen = None
+        self.cause = None
+        self.context = None
 
     def glomit(self, target, scope):
         import glom
@@ -207,7 +308,98 @@ class Recorder:
             return scope[glom.glom](target, self.inner, scope)
         except BaseException as ex:
             self.seen = ex
+            self.cause = ex.__cause__
+            self.context = ex.__context__
             raise
+
+
+class RegIter:
+    """target class known only to the case's Glommer: its registered `iterate` raises"""
+
+
+class RegGet:
+    """target class known only to the case's Glommer: its registered `get` raises"""
+
+
+def glom_kwargs(st, env, sentinel):
+    kw = {}
+    if st['default']:
+        kw['default'] = sentinel
+    if st.get('skip') is not None:
+        classes = tuple(env['cls'](n) for n in st['skip'])
+        kw['skip_exc'] = classes[0] if (len(classes) == 1 and not st.get('skip_tuple')) else classes
+    if st.get('debug') is not None:
+        kw['glom_debug'] = st['debug']
+    return kw
+
+
+def call_entry(entry, env, target, spec, kw):
+    import glom
+    if entry == 'spec':
+        return glom.Spec(spec).glom(target, **kw)
+    if entry == 'glommer':
+        return env['glommer'].glom(target, spec, **kw)
+    return glom.glom(target, spec, **kw)
+
+
+def compile_fault(kind, env):
+    import glom
+    fault, fault0, raiser = env['fault'], env['fault0'], env['raiser']
+    T, Val = glom.T, glom.Val
+    if kind == 'fn':
+        return fault
+    if kind == 'call':
+        return glom.Call(fault, args=(T,))
+    if kind == 'invoke':
+        return glom.Invoke(fault).specs(T)
+    if kind == 'tcall':
+        return (Val(fault), T(1))
+    if kind == 'factory':
+        return glom.Coalesce('zz', default_factory=fault0)
+    if kind == 'skipfunc':
+        return glom.Coalesce(env['ok'], skip=fault)
+
+    class NextRaises:
+        def __init__(self):
+            self.n = 1
+
+        def __iter__(self):
+            return self
+
+        def __next__(self):
+            if self.n == 0:
+                raiser()
+            self.n -= 1
+            return env['cyc']
+
+    class IterRaises:
+        def __iter__(self):
+            raiser()
+
+    class GetItemRaises:
+        def __getitem__(self, k):
+            raiser()
+
+    class GetAttrRaises:
+        def __getattr__(self, k):
+            if k.startswith('__'):
+                raise AttributeError(k)
+            raiser()
+    if kind == 'next':
+        return (Val(NextRaises()), [env['ok']])
+    if kind == 'iter':
+        return (Val(IterRaises()), [env['ok']])
+    if kind == 'getitem':
+        return (Val(GetItemRaises()), T['k'])
+    if kind == 'getattr':
+        return (Val(GetAttrRaises()), T.k)
+    if kind == 'path':
+        return (Val(GetAttrRaises()), 'k')
+    if kind == 'reg_iter':
+        return (Val(RegIter()), [env['ok']])
+    if kind == 'reg_get':
+        return (Val(RegGet()), 'k')
+    raise ValueError(kind)
 
 
 def compile_spec(sp, env):
@@ -215,11 +407,13 @@ def compile_spec(sp, env):
     if sp == 'ok':
         return env['ok']
     if sp == 'fault':
-        return env['fault']
+        return compile_fault('fn', env)
     if sp == 'badPath':
         return 'zz'
     if sp == 'badMatch':
         return glom.Match(str)
+    if 'fault' in sp:
+        return compile_fault(sp['fault'], env)
     if 'tup' in sp:
         return tuple(compile_spec(x, env) for x in sp['tup'])
     if 'dct' in sp:
@@ -227,26 +421,111 @@ def compile_spec(sp, env):
     if 'lst' in sp:
         return (env['ok'], [compile_spec(sp['lst'], env)])
     if 'frame' in sp:
-        return glom.Spec(compile_spec(sp['frame'], env))
-    if 'first' in sp:       # the key of First / Iter().first, as a tuple step (run on the items of the list)
-        k = compile_spec(sp['first'], env)
+        x = compile_spec(sp['frame'], env)
+        k = sp.get('kind', 'Spec')
+        ident = env['ident']
+        if k == 'Spec':
+            return glom.Spec(x)
+        if k == 'Auto':
+            return glom.Auto(x)
+        if k == 'Pipe':
+            return glom.Pipe(x)
+        if k == 'Ref':
+            return glom.Ref('r%d' % env['fresh'](), x)
+        if k == 'CallArg':
+            return glom.Call(ident, args=(glom.Spec(x),))
+        if k == 'InvokeSpec':
+            return glom.Invoke(ident).specs(x)
+        if k == 'FillAuto':
+            return glom.Fill(glom.Auto(x))
+        raise ValueError(k)
+    if 'first' in sp:       # the key of First / Iter steps, as a tuple step (run on the items of the list)
+        x = compile_spec(sp['first'], env)
         import glom.streaming
-        return ((env['ok'], glom.streaming.First(k, default=0)) if env['first_style'](sp)
-                else (env['ok'],) + glom.Iter().first(k, default=0))
+        k = sp.get('kind') or ('First' if env['first_style'](sp) else 'IterFirst')
+        ok = env['ok']
+        if k == 'First':
+            return (ok, glom.streaming.First(x, default=0))
+        if k == 'IterFirst':
+            return (ok, glom.Iter().first(x, default=0))
+        if k == 'IterMap':
+            return (ok, glom.Iter().map(x).all())
+        if k == 'IterFilter':
+            return (ok, glom.Iter().filter(x).all())
+        if k == 'IterMapFirst':
+            return (ok, glom.Iter().map(x).first(default=0))
+        raise ValueError(k)
     if 'coal' in sp:
         kw = {}
         if sp.get('skip') is not None:
             kw['skip_exc'] = tuple(env['cls'](n) for n in sp['skip'])
         if sp.get('dflt'):
-            kw['default'] = 0
+            dk = sp.get('dkind', 0)
+            if dk == 2:
+                kw['default_factory'] = lambda: 0
+            else:
+                kw['default'] = 1 if dk == 1 else 0      # never a str: `badMatch` must keep failing on it
         return glom.Coalesce(*[compile_spec(x, env) for x in sp['coal']], **kw)
+    if 'nest' in sp:
+        inner = compile_spec(sp['nest'], env)
+        st = sp['settings']
+        kw = glom_kwargs(st, env, env['inner_sentinel'])
+        entry = sp.get('entry', 'glom')
+
+        def nested(t):
+            r = call_entry(entry, env, t, inner, dict(kw))
+            # the inner call's implicit default (None) is a value like any other for the outer call; the
+            # observation of the OUTER call distinguishes its own None default from a computed value
+            return env['cyc'] if r is None else r
+        return nested
     raise ValueError(sp)
 
 
+_HISTORY = []        # every call made so far in this process (slim cases, bounded)
+
+
+def _purge_glom():
+    """forget glom (and every class built on it): the next import executes the source afresh"""
+    import sys
+    for m in [m for m in sys.modules if m == 'glom' or m.startswith('glom.')]:
+        del sys.modules[m]
+    _CLASS_MEMO.clear()
+
+
+def _slim(case):
+    """a case as an entry of a history: what determines the call, nothing else"""
+    return {k: case[k] for k in ('classes', 'exc', 'spec', 'settings', 'entry', 'recorder') if k in case}
+
+
 def run_impl(case):
-    import glom
+    if case.get('hermetic'):
+        # a shrinking candidate / a replayed case must fail on its own: state that earlier cases left in
+        # glom's modules (caches keyed by class or by name, ...) is discarded, the case's `before` history is all
+        # that precedes the observed call
+        _purge_glom()
     out = dict(case)
-    table = build_classes(case['classes'])
+    if not case.get('hermetic'):
+        out['impl_pos'] = len(_HISTORY)       # what preceded this case in the process
+        if len(_HISTORY) < 30000:
+            _HISTORY.extend(_slim(b) for b in case.get('before') or [])
+            _HISTORY.append(_slim(case))
+    # the history: earlier calls of this process (glom() has no state of its own: the model ignores them)
+    for b in case.get('before') or []:
+        try:
+            _execute(b)
+        except Exception:
+            pass
+    out['impl'] = _execute(case)
+    return out
+
+
+def _execute(case):
+    """build the objects of the case, make the call, observe -> impl"""
+    import glom
+    try:
+        table = build_classes(case['classes'])
+    except TypeError:
+        return {'class_error': True}
 
     def cls_of(n):
         return table.get(n) or real_class(n)
@@ -255,19 +534,25 @@ def run_impl(case):
     ex = case['exc']
     K = cls_of(ex['cls'])
     init = [codec.dec(a) for a in ex['init']]
-    try:
-        orig = K(*init, **({'code': 1} if ex.get('kw') else {}))
-    except Exception:
-        out['impl'] = {'ctor_error': True}
-        return out
-    if ex.get('set_args') is not None:
-        orig.args = tuple(codec.dec(a) for a in ex['set_args'])
-    try:
-        rebuilt = codec.enc_args(type(orig)(*orig.args).args)
-    except Exception:
-        rebuilt = None
-    impl = {'orig': {'mro': mro_names(type(orig)), 'args': codec.enc_args(orig.args), 'rebuild': rebuilt,
-                     'falsy': not bool(orig)}}
+    C1, C2 = ValueError('cause'), LookupError('context')
+    holder = []
+    if ex.get('raise_class'):
+        orig = None
+    else:
+        try:
+            orig = K(*init, **({'code': 1} if ex.get('kw') else {}))
+        except Exception:
+            return {'ctor_error': True}
+        if ex.get('set_args') is not None:
+            object.__setattr__(orig, 'args', tuple(codec.dec(a) for a in ex['set_args']))
+        if ex.get('cause'):
+            object.__setattr__(orig, '__cause__', C1)
+        if ex.get('context'):
+            object.__setattr__(orig, '__context__', C2)
+        try:
+            repr(orig)
+        except Exception:
+            return {'repr_error': True}     # glom renders the exception in messages of its own
     cyc = []
     cyc.append(cyc)
     cyc.append(cyc)
@@ -275,51 +560,75 @@ def run_impl(case):
     def ok(t):
         return cyc
 
-    def fault(t):
+    def raiser():
+        if orig is None:
+            try:
+                raise K
+            except BaseException as e:
+                holder.append(e)
+                raise
         raise orig
 
-    spec = compile_spec(case['spec'], {'ok': ok, 'fault': fault, 'cls': cls_of,
-                                       'first_style': lambda sp: len(json.dumps(sp)) % 2 == 0})
+    def fault(t):
+        raiser()
+
+    def fault0():
+        raiser()
+
+    gm = glom.Glommer()
+    gm.register(RegIter, iterate=lambda t: raiser())
+    gm.register(RegGet, get=lambda t, k: raiser())
+    counter = itertools.count()
+    env = {'ok': ok, 'fault': fault, 'fault0': fault0, 'raiser': raiser, 'cls': cls_of, 'cyc': cyc,
+           'ident': lambda v: v, 'glommer': gm, 'fresh': lambda: next(counter), 'inner_sentinel': object(),
+           'first_style': lambda sp: len(json.dumps(sp)) % 2 == 0}
+    spec = compile_spec(case['spec'], env)
     rec = None
     if case.get('recorder'):
         rec = Recorder(spec)
         spec = rec
     st = case['settings']
     sentinel = object()
-    kw = {}
-    if st['default']:
-        kw['default'] = sentinel
-    if st.get('skip') is not None:
-        classes = tuple(cls_of(n) for n in st['skip'])
-        kw['skip_exc'] = classes[0] if (len(classes) == 1 and not st.get('skip_tuple')) else classes
-    if st.get('debug') is not None:
-        kw['glom_debug'] = st['debug']
+    kw = glom_kwargs(st, env, sentinel)
     try:
-        ret = glom.glom(cyc, spec, **kw)
+        ret = call_entry(case.get('entry', 'glom'), env, cyc, spec, kw)
     except BaseException as e:
         res = e
         raised = True
     else:
         raised = False
-    origin_obj = orig
+    if orig is None:
+        # the class was raised: the instance Python created (if the fault was reached at all)
+        orig = holder[0] if holder else K()
+    try:
+        rebuilt = codec.enc_args(type(orig)(*orig.args).args)
+    except Exception:
+        rebuilt = None
+    impl = {'orig': {'mro': mro_names(type(orig)), 'args': codec.enc_args(orig.args), 'rebuild': rebuilt,
+                     'falsy': not bool(orig)}}
+
+    def rel(o, cause, context):
+        return {'same': res is o, 'inst': isinstance(res, type(o)),
+                'cause': res.__cause__ is cause, 'context': res.__context__ is context,
+                'reach': res is o or getattr(res, '_GlomError__wrapped', None) is o}
+    inj_cause = C1 if ex.get('cause') else None
+    inj_context = C2 if ex.get('context') else None
     if rec is None:
         impl['origin'] = 'unknown'
     elif rec.seen is None:
         impl['origin'] = None
-    elif rec.seen is orig:
-        impl['origin'] = {'injected': True}
     else:
-        origin_obj = rec.seen
-        impl['origin'] = {'internal': type(rec.seen).__name__, 'args': codec.enc_args(rec.seen.args)}
+        impl['origin'] = {'isInj': rec.seen is orig, 'mro': mro_names(type(rec.seen)),
+                          'args': codec.enc_args(rec.seen.args)}
     if raised:
-        impl['obs'] = {'raised': {'mro': mro_names(type(res)), 'args': codec.enc_args(res.args),
-                                  'sameInj': res is orig, 'instInj': isinstance(res, type(orig)),
-                                  'sameRec': res is origin_obj, 'instRec': isinstance(res, type(origin_obj)),
-                                  'instGlom': isinstance(res, glom.GlomError)}}
+        r = {'mro': mro_names(type(res)), 'args': codec.enc_args(res.args),
+             'instGlom': isinstance(res, glom.GlomError), 'inj': rel(orig, inj_cause, inj_context)}
+        if rec is not None and rec.seen is not None:
+            r['rec'] = rel(rec.seen, rec.cause, rec.context)
+        impl['obs'] = {'raised': r}
     else:
         impl['obs'] = {'returned': 'default' if ret is sentinel else 'none' if ret is None else 'value'}
-    out['impl'] = impl
-    return out
+    return impl
 
 
 # ------------------------------------------------------------------ generators
@@ -336,7 +645,7 @@ def gen_aval(rng):
     return {'o': rng.randrange(1, 6)}
 
 
-USER_STORES = ['all', 'all', 'nosuper', 'len', 'rev', {'pre': 0}, {'pre': 1}, {'pre': 2}, {'const': 'boom'}]
+USER_STORES = ['all', 'all', 'nosuper', 'len', 'rev', {'pre': 0}, {'pre': 1}, {'pre': 2}, {'const': 'boom'}, 'needint']
 
 
 def gen_shape(rng):
@@ -346,25 +655,44 @@ def gen_shape(rng):
     return {'sig': [lo, hi, kw, rng.choice(USER_STORES)]}
 
 
+def class_mro(name, classes):
+    """MRO (names) of a class of the case — from the real Python classes"""
+    by = {c['name'] for c in classes}
+    if name in by:
+        return mro_names(build_classes(classes)[name])
+    return mro_names(real_class(name))
+
+
+def ctor_root(name, classes):
+    """(shape, root): the user shape that constructs instances of `name`, or the first repo class on the MRO
+    whose constructor is special"""
+    by = {c['name']: c for c in classes}
+    for n in class_mro(name, classes):
+        if n in by:
+            if by[n].get('shape') is not None:
+                return by[n]['shape'], n
+            continue
+        if n in ARITY or n in ('OSError', 'UnicodeDecodeError', 'MatchError', 'BaseExceptionGroup'):
+            return None, n
+    return None, 'Exception'
+
+
 def init_for(rng, name, classes, mismatch=False):
     """arguments that fit the signature of class `name` (user or real)"""
-    by = {c['name']: c for c in classes}
-    n = name
-    kw = False
-    shape = None
-    while n in by:
-        if by[n].get('shape') is not None:
-            shape = by[n]['shape']
-            break
-        n = by[n]['base']
+    shape, root = ctor_root(name, classes)
     if shape is not None:
         lo, hi, kw, _ = shape['sig']
         k = lo if hi is not None else lo + rng.choice([0, 0, 1, 2, 3])
         if mismatch:
             k = max(0, k + rng.choice([-1, 1]))
-        return [gen_aval(rng) for _ in range(k)], kw
-    root = n
-    if root in ('OSError', 'FileNotFoundError') or 'OSError' in mro_names(real_class(root)):
+        init = [gen_aval(rng) for _ in range(k)]
+        if shape['sig'][3] == 'needint':
+            if not init:
+                init = [None]
+            if not mismatch:
+                init[0] = {'i': rng.choice([0, 1, 7])}
+        return init, kw
+    if root == 'OSError':
         k = rng.choice([0, 1, 2, 3, 3, 4, 5, 6])
         base = [{'i': 0}, {'s': 'msg'}, rng.choice([{'s': 'file'}, {'s': 'file'}, None]), {'i': 0}, {'s': 'file2'},
                 {'i': 9}]
@@ -372,6 +700,10 @@ def init_for(rng, name, classes, mismatch=False):
     if root == 'UnicodeDecodeError':
         good = [{'s': 'utf-8'}, {'y': 'ff00'}, {'i': 0}, {'i': 1}, {'s': 'bad byte'}]
         return (good[:4] if mismatch else good), False
+    if root == 'BaseExceptionGroup':     # members of a BaseExceptionGroup (ids >= 10) include a KeyboardInterrupt
+        base_only = 'Exception' not in class_mro(name, classes)
+        good = [{'s': 'several'}, {'x': rng.randrange(1, 4) + (10 if base_only else 0)}]
+        return (good[:1] if mismatch else good), False
     if root in ARITY:
         k = ARITY[root] + (rng.choice([-1, 1]) if mismatch else 0)
         return [rng.choice([{'o': rng.randrange(1, 6)}, {'i': rng.randrange(3)}, {'s': 'p'}]) for _ in range(k)], False
@@ -380,39 +712,86 @@ def init_for(rng, name, classes, mismatch=False):
     return [gen_aval(rng) for _ in range(rng.choice([0, 1, 1, 2, 3]))], False
 
 
+def accepts_no_args(name, classes):
+    shape, root = ctor_root(name, classes)
+    if shape is not None:
+        return shape['sig'][0] == 0 and not shape['sig'][2] and shape['sig'][3] != 'needint'
+    return root not in ARITY and root not in ('UnicodeDecodeError', 'MatchError', 'BaseExceptionGroup')
+
+
 def gen_exception(rng):
     """-> (classes, exc)"""
     classes = []
     p = rng.random()
-    if p < 0.25:
+    if p < 0.22:
         name = rng.choice(PLAIN_BASES + SPECIAL_BASES)
     else:
         q = rng.random()
-        if q < 0.7:
-            base = rng.choice(PLAIN_BASES)
+        copy_kind = 'args'
+        if q < 0.55:
+            bases = [rng.choice(PLAIN_BASES)]
             shape = gen_shape(rng) if rng.random() < 0.85 else None
+        elif q < 0.75:          # multiple inheritance: GlomError (or another plain class) mixed in, in either order
+            first = rng.choice(['KeyError', 'ValueError', 'Exception', 'RuntimeError', 'GlomError', 'IndexError',
+                                'LookupError', 'TypeError', 'BadSpec'])
+            rest = [m for m in MIXINS if m != first]
+            bases = [first] + rng.sample(rest, rng.choice([1, 1, 1, 2]))
+            if rng.random() < 0.4 and 'GlomError' not in bases:
+                bases[rng.randrange(1, len(bases))] = 'GlomError'
+            bases = consistent_bases(bases)
+            shape = gen_shape(rng) if rng.random() < 0.5 else None
         else:
-            base = rng.choice(SPECIAL_BASES)
+            bases = [rng.choice(SPECIAL_BASES)]
             shape = None
-        classes.append({'name': 'U1', 'base': base, 'shape': shape, 'falsy': rng.random() < 0.08})
+        if shape is not None and not shape['sig'][2] and rng.random() < 0.15:
+            copy_kind = 'init'
+        elif rng.random() < 0.05:
+            copy_kind = 'self'
+        c1 = {'name': 'U1', 'bases': bases, 'shape': shape, 'falsy': rng.random() < 0.08, 'copy': copy_kind}
+        classes.append(c1)
         name = 'U1'
         if rng.random() < 0.2:
-            classes.append({'name': 'U2', 'base': 'U1', 'shape': None, 'falsy': rng.random() < 0.05})
+            b2 = ['U1']
+            if rng.random() < 0.3:
+                b2 = consistent_bases(['U1', rng.choice(MIXINS)], classes)
+            classes.append({'name': 'U2', 'bases': b2, 'shape': None, 'falsy': rng.random() < 0.05, 'copy': 'args'})
             name = 'U2'
+        if HOSTILE_CLASSES and rng.random() < 0.15:
+            last = classes[-1]
+            k = rng.choice(['sealed', 'frozen', 'foreign'])
+            if k == 'foreign':
+                last['copy'] = 'foreign'
+            elif k == 'frozen' and last.get('shape') is not None:
+                last['frozen'] = True
+            elif k == 'sealed':
+                last['sealed'] = True
     init, kw = init_for(rng, name, classes, mismatch=rng.random() < 0.03)
     exc = {'cls': name, 'init': init, 'kw': kw, 'set_args': None}
-    if rng.random() < 0.08:
+    r = rng.random()
+    if r < 0.08:
         exc['set_args'] = [gen_aval(rng) for _ in range(rng.choice([0, 1, 2, 3]))]
+    elif r < 0.16 and accepts_no_args(name, classes):
+        exc['raise_class'] = True
+        exc['init'] = []
+    if not exc.get('raise_class'):
+        if rng.random() < 0.12:
+            exc['cause'] = True
+        if rng.random() < 0.12:
+            exc['context'] = True
     return classes, exc
 
 
-def class_mro(name, classes):
-    by = {c['name']: c for c in classes}
-    out = []
-    while name in by:
-        out.append(name)
-        name = by[name]['base']
-    return out + mro_names(real_class(name))
+def consistent_bases(bases, classes=()):
+    """drop bases until Python can create the class (no MRO / lay-out conflict)"""
+    bases = list(dict.fromkeys(bases))
+    table = build_classes(list(classes)) if classes else {}
+    while len(bases) > 1:
+        try:
+            type('Probe', tuple(table.get(b) or real_class(b) for b in bases), {})
+            return bases
+        except TypeError:
+            bases = bases[:-1]
+    return bases
 
 
 def gen_skip(rng, mro):
@@ -434,68 +813,7 @@ def gen_skip(rng, mro):
         return cs + ([rng.choice(['KeyError', 'GlomError'])] if rng.random() < 0.3 else []), True
     if p < 0.9:
         return [], True
-    return [rng.choice(['GlomError', 'Exception', 'BaseException', 'PathAccessError', 'MatchError'])], False
-
-
-def gen_ctx(rng, inner, depth, mro, noise):
-    """wrap `inner` in `depth` frames"""
-    sp = inner
-    for _ in range(depth):
-        k = rng.random()
-
-        def sib():
-            if rng.random() < noise:
-                return rng.choice(['badPath', 'badMatch', {'coal': ['badPath'], 'skip': None, 'dflt': False}])
-            return rng.choice(['ok', 'ok', 'ok', {'tup': []}, {'dct': ['ok']}, {'lst': 'ok'},
-                               {'coal': ['badPath', 'ok'], 'skip': None, 'dflt': False},
-                               {'coal': ['badMatch'], 'skip': None, 'dflt': True}])
-        pre = [sib() for _ in range(rng.choice([0, 0, 1, 2]))]
-        post = [sib() for _ in range(rng.choice([0, 0, 1]))]
-        if k < 0.28:
-            sp = {'tup': pre + [sp] + post}
-        elif k < 0.5:
-            sp = {'dct': pre + [sp] + post}
-        elif k < 0.62:
-            sp = {'lst': sp}
-        elif k < 0.70:
-            sp = {'frame': sp}
-        elif k < 0.78:
-            sp = {'first': sp}
-        else:
-            skip, _ = gen_skip(rng, mro)
-            cpre = [rng.choice(['badPath', 'badMatch'])] * rng.choice([0, 0, 1])
-            if skip is not None and cpre and not any(x in skip for x in ('GlomError', 'Exception', 'BaseException',
-                                                                         'PathAccessError', 'MatchError')):
-                cpre = []       # the earlier alternative would not be skipped: keep the fault reachable
-            cpost = [rng.choice(['ok', 'badPath'])] * rng.choice([0, 0, 1])
-            sp = {'coal': cpre + [sp] + cpost, 'skip': skip, 'dflt': rng.random() < 0.3}
-    return sp
-
-
-def has_internal(sp):
-    if isinstance(sp, str):
-        return sp in ('badPath', 'badMatch')
-    if 'coal' in sp:
-        return True
-    for k in ('tup', 'dct'):
-        if k in sp:
-            return any(has_internal(x) for x in sp[k])
-    return has_internal(sp.get('lst') or sp.get('frame') or sp.get('first'))
-
-
-def depth_of_fault(sp, d=0):
-    if sp == 'fault':
-        return d
-    if isinstance(sp, str):
-        return None
-    kids = sp.get('tup') or sp.get('dct') or sp.get('coal') or [sp.get('lst') or sp.get('frame') or sp.get('first')]
-    for x in kids:
-        if x is None:
-            continue
-        r = depth_of_fault(x, d + 1)
-        if r is not None:
-            return r
-    return None
+    return [rng.choice(['GlomError', 'Exception', 'BaseException', 'PathAccessError', 'MatchError', 'TypeError'])], False
 
 
 def gen_settings(rng, mro):
@@ -507,18 +825,170 @@ def gen_settings(rng, mro):
             'debug': rng.choice([None, None, None, False, True])}
 
 
-def mk_case(classes, exc, spec, settings, rng=None, recorder=None):
+def gen_fault(rng, exotic):
+    if rng.random() >= exotic:
+        return 'fault'
+    return {'fault': rng.choice(FAULT_KINDS)}
+
+
+def gen_ctx(rng, inner, depth, mro, noise, exotic=0.5):
+    """wrap `inner` in `depth` frames"""
+    sp = inner
+    for _ in range(depth):
+        k = rng.random()
+
+        def sib():
+            if rng.random() < noise:
+                return rng.choice(['badPath', 'badMatch', {'coal': ['badPath'], 'skip': None, 'dflt': False}])
+            return rng.choice(['ok', 'ok', 'ok', {'tup': []}, {'dct': ['ok']}, {'lst': 'ok'},
+                               {'coal': ['badPath', 'ok'], 'skip': None, 'dflt': False},
+                               {'coal': ['badMatch'], 'skip': None, 'dflt': True, 'dkind': rng.randrange(3)},
+                               {'frame': 'ok', 'kind': rng.choice(FRAME_KINDS)},
+                               {'nest': 'badPath', 'settings': {'default': True, 'skip': None, 'skip_tuple': False,
+                                                                 'debug': None}, 'entry': rng.choice(ENTRIES)}])
+        pre = [sib() for _ in range(rng.choice([0, 0, 1, 2]))]
+        post = [sib() for _ in range(rng.choice([0, 0, 1]))]
+        if k < 0.2:
+            sp = {'tup': pre + [sp] + post}
+        elif k < 0.36:
+            sp = {'dct': pre + [sp] + post}
+        elif k < 0.44:
+            sp = {'lst': sp}
+        elif k < 0.56:
+            sp = {'frame': sp, 'kind': rng.choice(FRAME_KINDS) if rng.random() < exotic + 0.2 else 'Spec'}
+        elif k < 0.64:
+            sp = {'first': sp}
+            if rng.random() < exotic + 0.2:
+                sp['kind'] = rng.choice(FIRST_KINDS)
+        elif k < 0.82:
+            skip, _ = gen_skip(rng, mro)
+            cpre = [rng.choice(['badPath', 'badMatch'])] * rng.choice([0, 0, 1])
+            if skip is not None and cpre and not any(x in skip for x in ('GlomError', 'Exception', 'BaseException',
+                                                                         'PathAccessError', 'MatchError')):
+                cpre = []       # the earlier alternative would not be skipped: keep the fault reachable
+            cpost = [rng.choice(['ok', 'badPath'])] * rng.choice([0, 0, 1])
+            sp = {'coal': cpre + [sp] + cpost, 'skip': skip, 'dflt': rng.random() < 0.3, 'dkind': rng.randrange(3)}
+        else:
+            sp = {'nest': sp, 'settings': gen_settings(rng, mro), 'entry': rng.choice(ENTRIES)}
+    return sp
+
+
+def kids_of(sp):
+    if isinstance(sp, str) or 'fault' in sp:
+        return []
+    for k in ('tup', 'dct', 'coal'):
+        if k in sp:
+            return list(sp[k])
+    for k in ('lst', 'frame', 'first', 'nest'):
+        if k in sp:
+            return [sp[k]]
+    return []
+
+
+def has_internal(sp):
+    """may an exception object other than the prepared one reach the top handler?"""
+    if isinstance(sp, str):
+        return sp in ('badPath', 'badMatch')
+    if 'fault' in sp:
+        return sp['fault'] in FAULT_CONV
+    if 'coal' in sp or 'nest' in sp:
+        return True
+    return any(has_internal(x) for x in kids_of(sp))
+
+
+def needs_glommer(sp):
+    """does the spec (up to the next nested glom call) use a handler registered on the case's Glommer?"""
+    if isinstance(sp, str):
+        return False
+    if 'fault' in sp:
+        return sp['fault'] in ('reg_iter', 'reg_get')
+    if 'nest' in sp:
+        return False
+    return any(needs_glommer(x) for x in kids_of(sp))
+
+
+def fix_entries(sp):
+    """a spec that uses a registered handler is evaluated through the Glommer it is registered on"""
+    if isinstance(sp, str) or 'fault' in sp:
+        return sp
+    sp = dict(sp)
+    for k in ('tup', 'dct', 'coal'):
+        if k in sp:
+            sp[k] = [fix_entries(x) for x in sp[k]]
+    for k in ('lst', 'frame', 'first', 'nest'):
+        if k in sp:
+            sp[k] = fix_entries(sp[k])
+    if 'nest' in sp and needs_glommer(sp['nest']):
+        sp['entry'] = 'glommer'
+    return sp
+
+
+def depth_of_fault(sp, d=0):
+    if sp == 'fault' or (isinstance(sp, dict) and 'fault' in sp):
+        return d
+    if isinstance(sp, str):
+        return None
+    for x in kids_of(sp):
+        r = depth_of_fault(x, d + 1)
+        if r is not None:
+            return r
+    return None
+
+
+def gen_before(rng, classes, exc):
+    """earlier calls: the same class with other (often non-rebuildable) args, or another class under the same name,
+    raised by a bare callable spec"""
+    out = []
+    for _ in range(rng.choice([1, 1, 2])):
+        if rng.random() < 0.6:
+            c2 = classes
+            e2 = dict(exc, set_args=None)
+            e2.pop('raise_class', None)
+            init, kw = init_for(rng, exc['cls'], classes, mismatch=rng.random() < 0.2)
+            e2['init'], e2['kw'] = init, kw
+            if rng.random() < 0.6:
+                e2['set_args'] = [gen_aval(rng) for _ in range(rng.choice([0, 1, 2, 3, 4]))]
+        else:
+            c2, e2 = gen_exception(rng)
+        out.append({'classes': c2, 'exc': e2, 'spec': 'fault', 'settings': dict(NONE_ST), 'entry': 'glom',
+                    'recorder': bool(e2.get('raise_class'))})
+    return out
+
+
+def mk_case(classes, exc, spec, settings, rng=None, recorder=None, entry=None, before=None):
+    spec = fix_entries(spec)
+    if entry is None:
+        entry = rng.choice(ENTRIES) if rng is not None and rng.random() < 0.4 else 'glom'
+    if needs_glommer(spec):
+        entry = 'glommer'
     if recorder is None:
         recorder = has_internal(spec) or (rng is not None and rng.random() < 0.3)
-    return {'classes': classes, 'exc': exc, 'spec': spec, 'settings': settings,
-            'recorder': bool(recorder or has_internal(spec))}
+    if before is None and rng is not None and rng.random() < 0.2:
+        before = gen_before(rng, classes, exc)
+    return {'classes': classes, 'exc': exc, 'spec': spec, 'settings': settings, 'entry': entry,
+            'recorder': bool(recorder or has_internal(spec) or exc.get('raise_class')), 'before': before or []}
+
+
+def map_fault(sp, f):
+    if sp == 'fault' or (isinstance(sp, dict) and 'fault' in sp):
+        return f(sp)
+    if isinstance(sp, str):
+        return sp
+    sp = dict(sp)
+    for k in ('tup', 'dct', 'coal'):
+        if k in sp:
+            sp[k] = [map_fault(x, f) for x in sp[k]]
+    for k in ('lst', 'frame', 'first', 'nest'):
+        if k in sp:
+            sp[k] = map_fault(sp[k], f)
+    return sp
 
 
 def mutate(rng, case):
     """one edit"""
     c = json.loads(json.dumps({k: v for k, v in case.items() if not k.startswith('impl')}))
     mro = class_mro(c['exc']['cls'], c['classes'])
-    k = rng.randrange(6)
+    k = rng.randrange(10)
     if k == 0:
         c['settings']['default'] = not c['settings']['default']
     elif k == 1:
@@ -529,18 +999,34 @@ def mutate(rng, case):
         c['spec'] = {'tup': [rng.choice(['badPath', 'badMatch']), c['spec']]}
     elif k == 4:       # absorb / do not absorb in a Coalesce
         skip, _ = gen_skip(rng, mro)
-        c['spec'] = {'coal': [c['spec']], 'skip': skip, 'dflt': rng.random() < 0.5}
+        c['spec'] = {'coal': [c['spec']], 'skip': skip, 'dflt': rng.random() < 0.5, 'dkind': rng.randrange(3)}
+    elif k == 5:       # the fault comes from another source
+        kind = rng.choice(FAULT_KINDS)
+        c['spec'] = map_fault(c['spec'], lambda _: {'fault': kind})
+    elif k == 6:       # replace / do not replace in a nested glom call
+        c['spec'] = {'nest': c['spec'], 'settings': gen_settings(rng, mro), 'entry': rng.choice(ENTRIES)}
+    elif k == 7:
+        if rng.random() < 0.5:
+            c['entry'] = rng.choice(ENTRIES)
+        else:
+            c['before'] = gen_before(rng, c['classes'], c['exc'])
+    elif k == 8:
+        c['spec'] = {rng.choice(['frame', 'first']): c['spec']}
+        if 'frame' in c['spec']:
+            c['spec']['kind'] = rng.choice(FRAME_KINDS)
+        else:
+            c['spec']['kind'] = rng.choice(FIRST_KINDS)
     else:
         if c['classes'] and c['classes'][0].get('shape') is not None:
             c['classes'][0]['shape']['sig'][3] = rng.choice(USER_STORES)
-        else:
+        elif not c['exc'].get('raise_class'):
             c['exc']['set_args'] = [gen_aval(rng) for _ in range(rng.choice([0, 1, 2]))]
-    c['recorder'] = bool(c.get('recorder') or has_internal(c['spec']))
-    return c
+    return mk_case(c['classes'], c['exc'], c['spec'], c['settings'], recorder=c.get('recorder'), entry=c.get('entry'),
+                   before=c.get('before'))
 
 
 def generate(rng, tier, scale, **focus):
-    n = (1400 if tier == 'quick' else 30000) * scale
+    n = (2600 if tier == 'quick' else 40000) * scale
     maxdepth = 4 if tier == 'quick' else 8
     last = None
     for i in range(n):
@@ -551,7 +1037,7 @@ def generate(rng, tier, scale, **focus):
         classes, exc = gen_exception(rng)
         mro = class_mro(exc['cls'], classes)
         depth = rng.choice([0, 1, 1, 2, 2, 3, maxdepth])
-        spec = gen_ctx(rng, 'fault', depth, mro, noise=0.08)
+        spec = gen_ctx(rng, gen_fault(rng, 0.45), depth, mro, noise=0.08)
         last = mk_case(classes, exc, spec, gen_settings(rng, mro), rng)
         yield last
     if not focus:
@@ -567,20 +1053,29 @@ def catalogue():
         init, kw = init_for(rng, b, [])
         out.append(([], {'cls': b, 'init': init, 'kw': kw, 'set_args': None}))
     shapes = [{'sig': [lo, hi, kw, st]} for (lo, hi) in ((0, None), (2, 2), (1, None))
-              for kw in (False, True) for st in ('all', 'nosuper', 'len', 'rev', {'pre': 1}, {'const': 'boom'})]
+              for kw in (False, True) for st in ('all', 'nosuper', 'len', 'rev', {'pre': 1}, {'const': 'boom'}, 'needint')]
     for base in ('Exception', 'KeyError', 'GlomError', 'KeyboardInterrupt'):
         for sh in shapes:
             for falsy in ((False, True) if sh['sig'][3] == 'all' and not sh['sig'][2] else (False,)):
-                cl = [{'name': 'U1', 'base': base, 'shape': sh, 'falsy': falsy}]
-                init, kw = init_for(rng, 'U1', cl)
-                out.append((cl, {'cls': 'U1', 'init': init, 'kw': kw, 'set_args': None}))
+                for ck in (('args', 'init') if not sh['sig'][2] and not falsy else ('args',)):
+                    cl = [{'name': 'U1', 'bases': [base], 'shape': sh, 'falsy': falsy, 'copy': ck}]
+                    init, kw = init_for(rng, 'U1', cl)
+                    out.append((cl, {'cls': 'U1', 'init': init, 'kw': kw, 'set_args': None}))
     for base in SPECIAL_BASES:
-        cl = [{'name': 'U1', 'base': base, 'shape': None, 'falsy': False}]
+        cl = [{'name': 'U1', 'bases': [base], 'shape': None, 'falsy': False, 'copy': 'args'}]
         init, kw = init_for(rng, 'U1', cl)
         out.append((cl, {'cls': 'U1', 'init': init, 'kw': kw, 'set_args': None}))
+    for bases in (['KeyError', 'GlomError'], ['GlomError', 'KeyError'], ['ValueError', 'KeyError', 'GlomError'],
+                  ['BadSpec', 'ValueError'], ['IndexError', 'KeyError']):
+        for ck in ('args', 'self'):
+            cl = [{'name': 'U1', 'bases': bases, 'shape': None, 'falsy': False, 'copy': ck}]
+            init, kw = init_for(rng, 'U1', cl)
+            out.append((cl, {'cls': 'U1', 'init': init, 'kw': kw, 'set_args': None}))
+            out.append((cl, {'cls': 'U1', 'init': [], 'kw': False, 'set_args': None, 'raise_class': True}))
     return out
 
 
+NONE_ST = {'default': False, 'skip': None, 'skip_tuple': False, 'debug': None}
 CONTEXTS = ['fault',
             {'tup': ['ok', 'fault', 'ok']},
             {'dct': ['ok', {'lst': {'frame': 'fault'}}]},
@@ -588,13 +1083,20 @@ CONTEXTS = ['fault',
             {'coal': ['fault'], 'skip': None, 'dflt': False},
             {'coal': ['badPath', 'fault', 'ok'], 'skip': ['Exception'], 'dflt': False},
             {'tup': [{'coal': ['badMatch', 'fault'], 'skip': ['BaseException'], 'dflt': False}]},
-            {'tup': ['badMatch', 'fault']}]
+            {'tup': ['badMatch', 'fault']},
+            {'nest': 'fault', 'settings': NONE_ST, 'entry': 'glom'},
+            {'nest': {'nest': 'fault', 'settings': NONE_ST, 'entry': 'spec'},
+             'settings': {'default': True, 'skip': None, 'skip_tuple': False, 'debug': None}, 'entry': 'glommer'},
+            {'tup': ['ok', {'nest': {'coal': ['fault'], 'skip': None, 'dflt': False},
+                            'settings': {'default': False, 'skip': None, 'skip_tuple': False, 'debug': True},
+                            'entry': 'glom'}]}] + [{'fault': k} for k in FAULT_KINDS if k != 'fn'] + \
+           [{'frame': 'fault', 'kind': k} for k in FRAME_KINDS] + [{'first': 'fault', 'kind': k} for k in FIRST_KINDS]
 
 
 def exhaustive(tier):
     cat = catalogue()
-    ctxs = CONTEXTS if tier == 'thorough' else [CONTEXTS[0], CONTEXTS[1], CONTEXTS[3]]
-    step = 1 if tier == 'thorough' else 7
+    ctxs = CONTEXTS if tier == 'thorough' else [CONTEXTS[0], CONTEXTS[1], CONTEXTS[3], CONTEXTS[9]] + CONTEXTS[11:]
+    step = 1 if tier == 'thorough' else 97
     i = 0
     for classes, exc in cat:
         mro = class_mro(exc['cls'], classes)
@@ -607,47 +1109,71 @@ def exhaustive(tier):
                 i += 1
                 if i % step:
                     continue
-                yield mk_case(classes, exc, spec, {'default': d, 'skip': skip, 'skip_tuple': tup, 'debug': dbg})
+                yield mk_case(classes, exc, spec, {'default': d, 'skip': skip, 'skip_tuple': tup, 'debug': dbg},
+                              entry=ENTRIES[i // step % 3])
 
 
 def corpus():
     """the four repaired defects, one witness each (DESIGN.md F5, F6 and the two found while building this check)"""
-    none = {'default': False, 'skip': None, 'skip_tuple': False, 'debug': None}
+    none = dict(NONE_ST)
+
+    def U(name, base, shape=None, falsy=False, **kw):
+        return dict({'name': name, 'bases': base if isinstance(base, list) else [base], 'shape': shape,
+                     'falsy': falsy, 'copy': 'args'}, **kw)
     out = [
-        mk_case([{'name': 'G2', 'base': 'GlomError', 'shape': {'sig': [2, 2, False, {'pre': 1}]}, 'falsy': False}],
+        mk_case([U('G2', 'GlomError', {'sig': [2, 2, False, {'pre': 1}]})],
                 {'cls': 'G2', 'init': [{'i': 1}, {'i': 2}], 'kw': False, 'set_args': None}, 'fault', none),
-        mk_case([{'name': 'L', 'base': 'Exception', 'shape': {'sig': [0, None, False, 'len']}, 'falsy': False}],
+        mk_case([U('L', 'Exception', {'sig': [0, None, False, 'len']})],
                 {'cls': 'L', 'init': [{'i': 5}, {'i': 6}], 'kw': False, 'set_args': None}, 'fault', none),
-        mk_case([{'name': 'G3', 'base': 'GlomError', 'shape': {'sig': [0, None, False, 'rev']}, 'falsy': False}],
+        mk_case([U('G3', 'GlomError', {'sig': [0, None, False, 'rev']})],
                 {'cls': 'G3', 'init': [{'i': 5}, {'i': 6}], 'kw': False, 'set_args': None}, 'fault', none),
-        mk_case([{'name': 'TM', 'base': 'TypeMatchError', 'shape': None, 'falsy': False}],
+        mk_case([U('TM', 'TypeMatchError')],
                 {'cls': 'TM', 'init': [{'o': 1}, {'o': 2}], 'kw': False, 'set_args': None}, 'fault', none),
-        mk_case([{'name': 'FalsyG', 'base': 'GlomError', 'shape': None, 'falsy': True}],
+        mk_case([U('FalsyG', 'GlomError', falsy=True)],
                 {'cls': 'FalsyG', 'init': [{'i': 1}], 'kw': False, 'set_args': None}, 'fault', none),
-        mk_case([{'name': 'Falsy', 'base': 'KeyError', 'shape': None, 'falsy': True}],
+        mk_case([U('Falsy', 'KeyError', falsy=True)],
                 {'cls': 'Falsy', 'init': [{'s': 'k'}], 'kw': False, 'set_args': None},
                 {'tup': ['ok', {'dct': ['fault']}]}, none),
     ]
     # the counter-examples that justify the hypotheses of the theorems (Props/C04.lean), on the real glom
     key_err = {'cls': 'KeyError', 'init': [{'s': 'k'}], 'kw': False, 'set_args': None}
+    ki = [U('KI', 'KeyboardInterrupt')]
+    ki_exc = {'cls': 'KI', 'init': [{'i': 1}], 'kw': False, 'set_args': None}
+    dflt = {'default': True, 'skip': None, 'skip_tuple': False, 'debug': None}
     out += [
         # c04_glomerror without `rebuildable`: U(a, b) stores (a,) -> the original leaves, not a GlomError
-        mk_case([{'name': 'U', 'base': 'Exception', 'shape': {'sig': [2, 2, False, {'pre': 1}]}, 'falsy': False}],
+        mk_case([U('U', 'Exception', {'sig': [2, 2, False, {'pre': 1}]})],
                 {'cls': 'U', 'init': [{'i': 1}, {'i': 2}], 'kw': False, 'set_args': None}, 'fault', none),
         # … without `Exception`: a KeyboardInterrupt subclass is never wrapped
-        mk_case([{'name': 'KI', 'base': 'KeyboardInterrupt', 'shape': None, 'falsy': False}],
-                {'cls': 'KI', 'init': [{'i': 1}], 'kw': False, 'set_args': None}, 'fault', none),
+        mk_case(ki, ki_exc, 'fault', none),
         # … without `debug off`
         mk_case([], key_err, 'fault', dict(none, debug=True)),
         # c04_debug_identity / c04_baseexception_untouched without `selected = false`
-        mk_case([{'name': 'KI', 'base': 'KeyboardInterrupt', 'shape': None, 'falsy': False}],
-                {'cls': 'KI', 'init': [{'i': 1}], 'kw': False, 'set_args': None}, 'fault',
-                {'default': True, 'skip': ['KI'], 'skip_tuple': False, 'debug': True}),
+        mk_case(ki, ki_exc, 'fault', {'default': True, 'skip': ['KI'], 'skip_tuple': False, 'debug': True}),
         # c04_plain_frames without the StopIteration clause: First's key raising StopIteration ends the iteration
         mk_case([], {'cls': 'StopIteration', 'init': [{'i': 3}], 'kw': False, 'set_args': None},
                 {'first': 'fault'}, none, recorder=True),
         # … without `PreOk`: an earlier sibling fails first
         mk_case([], key_err, {'tup': ['badPath', 'fault']}, none),
+        # a user __reduce__ makes a GlomError subclass with an arity-changing constructor copyable
+        mk_case([U('R', 'GlomError', {'sig': [2, 2, False, {'pre': 1}]}, copy='init')],
+                {'cls': 'R', 'init': [{'i': 1}, {'i': 2}], 'kw': False, 'set_args': None}, 'fault', none),
+        # the class raised, GlomError mixed in after KeyError, __cause__ set, two nested glom calls
+        mk_case([U('M', ['KeyError', 'GlomError'])],
+                {'cls': 'M', 'init': [], 'kw': False, 'set_args': None, 'raise_class': True}, 'fault', none),
+        mk_case([], dict(key_err, cause=True, context=True),
+                {'nest': {'nest': 'fault', 'settings': none, 'entry': 'spec'}, 'settings': none, 'entry': 'glommer'},
+                dict(none, debug=True)),
+        # default= of an outer glom call catches what an inner one wrapped (a KeyError became a GlomError)
+        mk_case([], key_err, {'nest': 'fault', 'settings': none, 'entry': 'glom'}, dflt),
+        # the conversions: __iter__ -> TypeError, __getitem__ -> PathAccessError only for the named classes
+        mk_case([], key_err, {'fault': 'iter'}, none),
+        mk_case([], {'cls': 'ZeroDivisionError', 'init': [], 'kw': False, 'set_args': None}, {'fault': 'getitem'}, none),
+        mk_case([], key_err, {'fault': 'getitem'}, dflt),
+        mk_case([], {'cls': 'ExceptionGroup', 'init': [{'s': 'g'}, {'x': 1}], 'kw': False, 'set_args': None},
+                {'fault': 'call'}, none),
+        mk_case([], {'cls': 'BaseExceptionGroup', 'init': [{'s': 'g'}, {'x': 11}], 'kw': False, 'set_args': None},
+                {'fault': 'invoke'}, dflt),
     ]
     p = os.path.join(os.path.dirname(os.path.dirname(os.path.dirname(os.path.abspath(__file__)))),
                      'corpus', 'C04.jsonl')
@@ -659,7 +1185,7 @@ def corpus():
 
 
 def key(case):
-    return {k: case[k] for k in ('classes', 'exc', 'spec', 'settings', 'recorder')}
+    return {k: case.get(k) for k in ('classes', 'exc', 'spec', 'settings', 'entry', 'recorder', 'before')}
 
 
 def nontrivial(case, verdict):
@@ -667,47 +1193,78 @@ def nontrivial(case, verdict):
     if b in ('no-exception', 'ctor-disagreement', ''):
         return False
     st = case['settings']
-    plain = (not case['classes'] and case['exc']['cls'] in PLAIN_BASES and case['exc'].get('set_args') is None)
+    ex = case['exc']
+    plain = (not case['classes'] and ex['cls'] in PLAIN_BASES and ex.get('set_args') is None
+             and not ex.get('raise_class') and not ex.get('cause') and not ex.get('context'))
     return bool(case['spec'] != 'fault' or st['default'] or st.get('skip') is not None
-                or st.get('debug') is not None or not plain)
+                or st.get('debug') is not None or not plain or case.get('entry', 'glom') != 'glom')
 
 
 def shrink(case):
     base = {k: v for k, v in case.items() if not k.startswith('impl')}
+    if not base.get('hermetic'):
+        # first make the case self-contained: with its own history only, else with the history of the whole run
+        # (every later candidate is evaluated on a freshly imported glom)
+        c = dict(base, hermetic=True)
+        yield c
+        c = dict(base, hermetic=True)
+        c['before'] = list(_HISTORY[:case.get('impl_pos', 0)]) + list(base.get('before') or [])
+        yield c
+        return
+    bf0 = base.get('before') or []
+    if len(bf0) > 2:       # halve a long history first
+        h = len(bf0) // 2
+        for part in (bf0[h:], bf0[:h]):
+            c = dict(base)
+            c['before'] = part
+            yield c
 
     def with_spec(sp):
-        c = dict(base)
-        c['spec'] = sp
-        c['recorder'] = bool(has_internal(sp))
-        return c
+        return dict(mk_case(base['classes'], base['exc'], sp, base['settings'], recorder=False, entry=base.get('entry'),
+                            before=base.get('before')), hermetic=True)
     sp = case['spec']
-    if not isinstance(sp, str):
-        kids = sp.get('tup') or sp.get('dct') or sp.get('coal') or [sp.get('lst') or sp.get('frame') or sp.get('first')]
-        for x in kids:
-            if x is not None:
-                yield with_spec(x)
+    if not isinstance(sp, str) and 'fault' not in sp:
+        for x in kids_of(sp):
+            yield with_spec(x)
         for k in ('tup', 'dct', 'coal'):
             if k in sp:
                 for i in range(len(sp[k])):
                     s2 = dict(sp)
                     s2[k] = sp[k][:i] + sp[k][i + 1:]
                     yield with_spec(s2)
+        if 'kind' in sp:
+            s2 = dict(sp)
+            del s2['kind']
+            yield with_spec(s2)
+    if isinstance(sp, dict) and 'fault' in sp:
+        yield with_spec('fault')
+    bf = case.get('before') or []
+    for i in range(len(bf)):
+        c = dict(base)
+        c['before'] = bf[:i] + bf[i + 1:]
+        yield c
     st = case['settings']
     for k, v in (('default', False), ('skip', None), ('debug', None)):
         if st.get(k) != v:
             c = dict(base)
             c['settings'] = dict(st, **{k: v})
             yield c
-    if case['exc'].get('set_args') is not None:
+    if case.get('entry', 'glom') != 'glom' and not needs_glommer(sp):
         c = dict(base)
-        c['exc'] = dict(case['exc'], set_args=None)
+        c['entry'] = 'glom'
         yield c
+    for k in ('set_args', 'cause', 'context'):
+        if case['exc'].get(k):
+            c = dict(base)
+            c['exc'] = {kk: vv for kk, vv in case['exc'].items() if kk != k}
+            c['exc'].setdefault('set_args', None)
+            yield c
     if len(case['classes']) == 2 and case['exc']['cls'] == 'U2':
         c = dict(base)
         c['classes'] = case['classes'][:1]
         c['exc'] = dict(case['exc'], cls='U1')
         yield c
-    if base.get('recorder') and not has_internal(sp):
+    if base.get('recorder') and not has_internal(sp) and not case['exc'].get('raise_class'):
         c = dict(base)
         c['recorder'] = False
         yield c
